@@ -95,6 +95,9 @@ func c16flush(c *ev.Ctx) {
 func c16Scenario(r *rand.Rand, caseN int) (string, map[string]interface{}) {
 	w := &c16world{start: time.Now(), interesting: map[int]bool{}, announced: map[string]map[int][]time.Duration{}, reportedIn: map[int]time.Duration{}, gone: map[int]time.Duration{}}
 	cfg := itemsfetcher.Config{ForgetTimeout: 50 * c16A, ArriveTimeout: c16A, GatherSlack: c16A / 10, HashLimit: 1000, MaxBatch: 4, MaxParallelRequests: 4, MaxQueuedBatches: 32}
+	if caseN%8 == 3 {
+		cfg.HashLimit = 40 // small announce table; the scenario stays far below it (13 announcements)
+	}
 	f := itemsfetcher.New(cfg, itemsfetcher.Callback{
 		OnlyInterested: func(ids []interface{}) []interface{} {
 			w.mu.Lock()
@@ -175,7 +178,38 @@ func c16Scenario(r *rand.Rand, caseN int) (string, map[string]interface{}) {
 	}
 	sleepA := func(k float64) { time.Sleep(time.Duration(k * float64(c16A))) }
 	overlap := false
-	if caseN%4 == 0 {
+	regain := func(ids ...int) {
+		// interest returns WITHOUT a new announcement (the gone-time stays: any later request is a violation)
+		w.mu.Lock()
+		for _, id := range ids {
+			w.interesting[id] = true
+		}
+		w.mu.Unlock()
+		step(fmt.Sprintf("interest returns (no new announcement) %v", ids))
+	}
+	if caseN%8 == 2 {
+		// everything loses interest for several timeouts, then interest returns without an announcement
+		announce(peers[r.Intn(3)], 1)
+		if r.Intn(2) == 0 {
+			announce(peers[r.Intn(3)], 2)
+		}
+		sleepA(0.5 + r.Float64())
+		goneF(false, 1, 2)
+		sleepA(4 + 2*r.Float64())
+		regain(1)
+	} else if caseN%8 == 3 {
+		// one item announced once while suspended, another announced a dozen times by all peers
+		sleepA(1.5)
+		setSuspend(true)
+		announce(peers[0], 1)
+		for k := 0; k < 12; k++ {
+			announce(peers[k%3], 2)
+			sleepA(0.05)
+		}
+		sleepA(1)
+		setSuspend(false)
+		overlap = true
+	} else if caseN%4 == 0 {
 		// the idle shape
 		sleepA(2)
 		setSuspend(true)
@@ -266,6 +300,9 @@ func c16Scenario(r *rand.Rand, caseN int) (string, map[string]interface{}) {
 	for id, in := range w.interesting {
 		if !in {
 			continue
+		}
+		if _, wasGone := w.gone[id]; wasGone {
+			continue // lost interest and was not announced anew: the fetcher may have forgotten it
 		}
 		var ta time.Duration = -1
 		for _, p := range peers {
